@@ -25,7 +25,7 @@ func entryParams(fn *ssa.Function) []Val {
 }
 
 func e1dump(mod, which string, verbose bool) {
-	e := &Env{progs: map[string]*Program{}, models: map[string]*Model{}}
+	e := &Env{overlay: cliOverlay, progs: map[string]*Program{}, models: map[string]*Model{}}
 	m := e.Model(mod)
 	x := NewExplorer(m)
 	for _, ep := range m.Entries {
@@ -74,7 +74,7 @@ func e1dump(mod, which string, verbose bool) {
 }
 
 func e1events(mod, which string) {
-	e := &Env{progs: map[string]*Program{}, models: map[string]*Model{}}
+	e := &Env{overlay: cliOverlay, progs: map[string]*Program{}, models: map[string]*Model{}}
 	m := e.Model(mod)
 	r := RunE1(m)
 	h := r.byKey[which]
@@ -94,6 +94,34 @@ func e1events(mod, which string) {
 				t = ev.Table.Name
 			}
 			fmt.Printf("  %d %s %s.%s loop=%q row=%d\n", j, ev.Kind, t, ev.Method, ev.Loop, len(ev.Row))
+		}
+	}
+}
+
+// e1loops prints the loop accumulators (havoc → back) of a handler's iteration outcomes.
+func e1loops(mod, which string) {
+	e := &Env{overlay: cliOverlay, progs: map[string]*Program{}, models: map[string]*Model{}}
+	m := e.Model(mod)
+	r := RunE1(m)
+	h := r.byKey[which]
+	if h == nil {
+		fmt.Println("no handler", which)
+		return
+	}
+	for _, o := range h.Outs {
+		if o.Kind != exitLoopback {
+			continue
+		}
+		for _, l := range o.St.loops {
+			if l.Tag != o.Loop {
+				continue
+			}
+			for _, ph := range l.Phis {
+				fmt.Printf("%s %s: havoc=%s back=%s (%T)\n", l.Tag, ph.Name, vstr(ph.Havoc), vstr(ph.Back), ph.Back)
+				if iv, ok := ph.Back.(*IntV); ok {
+					fmt.Printf("    inexact=%v\n", iv.Inexact)
+				}
+			}
 		}
 	}
 }
